@@ -489,6 +489,30 @@ def gen_recursive(r):
     return wrap_stmt(r, q, ["ck"])
 
 
+def gen_scoped(r):
+    """a statement with an alias that is local to a derived table, and a new name for it that is the bare name of a
+    table of the enclosing query (not visible inside the derived table, so the renaming is injective and clash-free
+    in the alias's scope): returns (statement, alias, new name)"""
+    x, y, z = r.sample([t for t in TABLES if t[1] != "t1"] + [("s1", "t1")], 3)
+    al = r.choice(["p", "q", "v"])
+    inner_rels = [rtable(y[0], y[1], al)] + ([rtable(z[0], z[1], "k1")] if r.random() < 0.4 else [])
+    d2 = rderived(select([iexpr(col(al, "ck"), None), iexpr(col(al, "cx"), "cm")], inner_rels), "d2")
+    rels = [d2]
+    items = [iexpr(col("d2", "ck"), "o1"), iexpr(col(x[1], "cy"), "o2")]
+    if r.random() < 0.6:
+        rels.append(rderived(select([iexpr(col(None, "cz"), None)], [rtable(x[0], x[1])]), "d1"))
+        items.append(iexpr(col("d1", "cz"), "o3"))
+    rels.append(rtable(x[0], x[1]))                       # the enclosing query reads x un-aliased ...
+    if r.random() < 0.7:
+        rels.append(rtable(y[0], y[1]))                   # ... and possibly y, the table behind the inner alias
+        items.append(iexpr(col(y[1], "cz"), "o4"))
+    r.shuffle(rels)
+    q = select(items, rels, False)
+    if r.random() < 0.3:
+        q = union(q, select([iexpr(col(None, "ck"), None) for _ in items], [rtable(z[0], z[1])]))
+    return wrap_stmt(r, q, ["o%d" % i for i in range(len(items))]), al, x[1]
+
+
 # ---------------------------------------------------------------------------
 # systematic FROM shapes: relation kinds x grouping x join style
 # ---------------------------------------------------------------------------
